@@ -231,9 +231,11 @@ MEMBER_NEEDS = {'pt': 1, 'mpt1': 1, 'mptrep': 1, 'mline1': 1, 'mlinerep': 1, 'ml
                 'mline': 4, 'poly': 3, 'mpoly': 6, 'box': 2}
 
 
-def mk_member(kind, m, rep=2, dt=None):
+def mk_member(kind, m, rep=2, dt=None, props=None):
     """member kind + the grid points it is made of -> (shape, the member's vertex list as the library stores it)"""
     kw = {} if dt is None else {'dt': dt}
+    if props is not None:
+        kw['properties'] = props
     if kind == 'pt':
         return GeoPoint(C(m[0]), **kw), [m[0]]
     if kind == 'mpt1':                                   # GeoJSON MultiPoint with one position
@@ -358,6 +360,238 @@ def gen_collection(rng):
     hours = list(range(len(specs)))
     rng.shuffle(hours)
     return form, [(k, m, r, hours[i]) for i, (k, m, r) in enumerate(specs)]
+
+
+# ----------------------------------------------------------------------------- call histories on collections
+# Mechanism class covered: a collection's convex_hull is a cached observation, and a DERIVED collection (a + b, a += b,
+# sum()/reduce chains, filters, slices, copy) may take a shortcut through what its operands already hold - carry a cached
+# hull over, pre-seed the sum's hull from the operands' cached rings, keep a cache across an in-place change, invalidate
+# too little.  Any such shortcut is invisible unless the observations were READ on the operands BEFORE the derivation, and
+# goes wrong first on the operands whose hull is not a closed ring of 3+ vertices: a single ping / pings repeating one
+# position / a one-position multi-shape (hull ring [c]), two positions or collinear ones (ring [a, b, a]).  A history is
+# a list of operand collections (FeatureCollection or Track; every member timed and numbered) and a program over a growing
+# pool of collections: reads of cached and uncached observations, `+` in both orders, `+=` (the rebinding is followed),
+# builtin sum() / reduce chains of 2-4 sums with or without reading the intermediates, copy, time filters, property
+# filters, slices.  At the end EVERY collection of the pool (operands and derived) is asked for its hull; it is judged by
+# the model (hull_of_members of the vertex lists of ITS OWN members, KEntry) and by the property on the exact coordinates;
+# a sum must hold exactly the shapes of its operands, a filter / slice a sub-multiset of its source.
+HIST_READS = {'fc': ['convex_hull', 'convex_hull', 'convex_hull', 'bounds', 'geospan', 'centroid', 'len'],
+              'track': ['convex_hull', 'convex_hull', 'convex_hull', 'bounds', 'geospan', 'centroid', 'len', 'has_duplicate_timestamps',
+                        'centroid_distances', 'time_start_diffs', 'first', 'last', 'convolve']}
+
+
+def hist_read(col, name):
+    if name == 'len':
+        return len(col)
+    if name == 'convolve':
+        return col.convolve_duplicate_timestamps()
+    return getattr(col, name)
+
+
+def gen_operand(rng):
+    """-> (class, [(kind, points, rep)]): biased to the collections whose hull is not a proper ring"""
+    u = rng.random()
+    p = lambda: (rng.randint(-14, 14), rng.randint(-14, 14))            # noqa: E731
+    if u < 0.18:
+        return 'one-ping', [('pt', [p()], 2)]
+    if u < 0.30:                         # several pings / members repeating one position
+        q = p()
+        return 'one-position', [(rng.choice(DEGENERATE + ('pt', 'pt', 'pt')), [q], rng.randint(2, 4)) for _ in range(rng.randint(2, 4))]
+    if u < 0.36:
+        return 'one-position', [(rng.choice(DEGENERATE), [p()], rng.randint(2, 4))]
+    if u < 0.52:                         # the hull is a segment
+        a = p()
+        d = rng.choice([(1, 0), (0, 1), (1, 1), (2, -1), (-3, 2), (0, -2), (4, 0)])
+        k = rng.choice([2, 2, 4, 6])
+        b = (a[0] + k * d[0], a[1] + k * d[1])
+        mid = (a[0] + k // 2 * d[0], a[1] + k // 2 * d[1])
+        return 'segment', rng.choice([[('pt', [a], 2), ('pt', [b], 2)], [('mline2', [a, b], 2)], [('mptcol', [a, b], 2)],
+                                      [('pt', [b], 2), ('pt', [mid], 2), ('pt', [a], 2), ('pt', [mid], 2)], [('line', [a, mid, b], 2)],
+                                      [('pt', [a], 2), ('mline2', [mid, b], 2)]])
+    form, specs = gen_collection(rng)
+    return form, [(k_, m_, r_) for k_, m_, r_, _ in specs]
+
+
+def gen_history(rng, entry):
+    """-> (form, history): history = {'entry', 'operands': [[(kind, points, rep, hour)]], 'program': [op]} (JSON-able).
+    ops: ['read', i, what] | ['add', i, j] | ['iadd', i, j] | ['sum', [i..]] | ['reduce', [i..]] | ['copy', i] |
+    ['fdt', i, h0, h1] | ['fprop', i, m, r] | ['slice', i, a, b]; every op but read/iadd appends one collection to the pool"""
+    reads = HIST_READS[entry]
+    form = rng.choice(['pair', 'pair', 'pair', 'chain', 'chain', 'chain', 'mixed', 'mixed'])
+    nops = 2 if form == 'pair' else rng.randint(3, 5) if form == 'chain' else rng.randint(2, 4)
+    ops_ = [gen_operand(rng) for _ in range(nops)]
+    total = sum(len(o[1]) for o in ops_)
+    hours = rng.sample(range(0, 3 * total + 2), total)
+    operands, h = [], 0
+    for _, specs in ops_:
+        operands.append([(k_, [list(q) for q in m_], r_, hours[h + i]) for i, (k_, m_, r_) in enumerate(specs)])
+        h += len(specs)
+    prog, n = [], nops                     # n = size of the pool
+    p_hull = rng.choice([1.0, 0.85, 0.85, 0.5])
+
+    def read_some(i):
+        if rng.random() < p_hull:
+            prog.append(['read', i, 'convex_hull'])
+        for _ in range(rng.choice([0, 0, 1, 2])):
+            prog.append(['read', i, rng.choice(reads)])
+    if form == 'pair':
+        order = [0, 1]
+        rng.shuffle(order)
+        for i in order:
+            read_some(i)
+        a, b = rng.choice([(0, 1), (1, 0)])
+        prog.append([rng.choice(['add', 'add', 'add', 'iadd']), a, b])
+        if rng.random() < 0.5:             # ... and the sum goes on to be an operand itself
+            last = a if prog[-1][0] == 'iadd' else n
+            n += prog[-1][0] != 'iadd'
+            read_some(last)
+            other = rng.choice([0, 1])
+            read_some(other)
+            prog.append(['add', last, other] if rng.random() < 0.5 else ['add', other, last])
+            n += 1
+    elif form == 'chain':                  # 2-4 sums over 3-5 operands, spelled step by step / sum() / reduce
+        idx = list(range(nops))
+        rng.shuffle(idx)
+        for i in idx:
+            read_some(i)
+        spell = rng.choice(['steps', 'steps', 'steps-read', 'steps-read', 'sum', 'reduce', 'iadd-steps'])
+        if spell in ('sum', 'reduce'):
+            prog.append([spell, idx])
+            n += 1
+        else:
+            acc = idx[0]
+            for j in idx[1:]:
+                if spell == 'iadd-steps':
+                    prog.append(['iadd', acc, j])
+                else:
+                    prog.append(['add', acc, j] if rng.random() < 0.7 else ['add', j, acc])
+                    acc = n
+                    n += 1
+                if spell == 'steps-read' or rng.random() < 0.3:
+                    read_some(acc)
+    else:                                  # mixed: anything on anything
+        for _ in range(rng.randint(3, 9)):
+            i = rng.randrange(n)
+            k = rng.choice(['read', 'read', 'read', 'add', 'add', 'iadd', 'copy', 'fdt', 'fprop', 'slice', 'sum'])
+            if k == 'read':
+                read_some(i)
+                continue
+            if k in ('add', 'iadd'):
+                prog.append([k, i, rng.randrange(n)])
+            elif k == 'sum':
+                prog.append(['sum', [rng.randrange(n) for _ in range(rng.randint(2, 4))]])
+            elif k == 'copy':
+                prog.append(['copy', i])
+            elif k == 'fdt':
+                a = rng.randint(-1, 3 * total)
+                prog.append(['fdt', i, a, a + rng.randint(0, 2 * total)])
+            elif k == 'fprop':
+                m = rng.choice([2, 3])
+                prog.append(['fprop', i, m, rng.randrange(m)])
+            else:
+                a = rng.randint(-1, 3 * total) if entry == 'track' else rng.randint(0, 3)
+                prog.append(['slice', i, a, a + rng.randint(1, 2 * total)])
+            n += k != 'iadd'
+    return form, {'entry': entry, 'operands': operands, 'program': prog}
+
+
+def run_history(hist):
+    """drives the implementation through the history; -> [(how the collection was obtained, members or None, hull result,
+    clauses about the derivation itself)] for every collection of the pool.  Raises Inexact when a member vertex is not
+    representable in the current frame."""
+    import functools
+    import operator
+    from geostructures.time import TimeInterval
+    entry = hist['entry']
+    cls_ = Track if entry == 'track' else FeatureCollection
+    verts, keep, pool, n = {}, [], [], 0
+    for oi, specs in enumerate(hist['operands']):
+        shapes = []
+        for kind, m, rep, hour in specs:
+            sh_, v = mk_member(kind, [tuple(q) for q in m], rep, T0 + timedelta(hours=hour), {'n': n})
+            n += 1
+            verts[id(sh_)] = v
+            keep.append(sh_)
+            shapes.append(sh_)
+        pool.append({'col': cls_(shapes), 'how': f'operand {oi}', 'ids': sorted(id(s) for s in shapes), 'sub': None, 'err': None})
+
+    def derived(how, r, ids=None, sub=None):
+        pool.append({'col': r[1] if r[0] == 'Ok' else None, 'how': how, 'ids': ids, 'sub': sub, 'err': None if r[0] == 'Ok' else r[1]})
+
+    def allids(ix):
+        return None if any(pool[i]['ids'] is None for i in ix) else sorted(x for i in ix for x in pool[i]['ids'])
+    for op in hist['program']:
+        k = op[0]
+        ix = list(op[1]) if k in ('sum', 'reduce') else [op[1], op[2]] if k in ('add', 'iadd') else [op[1]]
+        if any(pool[i]['col'] is None for i in ix):            # an operand that could not be built: already reported
+            if k not in ('read', 'iadd'):
+                derived(f'{op} (operand missing)', ('Err', 'skipped'))
+                pool[-1]['err'] = None
+            continue
+        cs = [pool[i]['col'] for i in ix]
+        if k == 'read':
+            guarded(lambda: hist_read(cs[0], op[2]))
+        elif k == 'add':
+            derived(f'pool[{op[1]}] + pool[{op[2]}]', guarded(lambda: cs[0] + cs[1]), allids(ix))
+        elif k == 'iadd':
+            def iadd():
+                x = cs[0]
+                x += cs[1]
+                return x
+            r = guarded(iadd)
+            e = pool[op[1]]
+            e['how'] = f'({e["how"]}) += pool[{op[2]}]'
+            e['ids'] = allids(ix)
+            e['sub'] = None
+            if r[0] == 'Ok':
+                e['col'] = r[1]                                  # whatever the name is bound to now
+            else:
+                e['col'], e['err'] = None, r[1]
+        elif k == 'sum':
+            derived(f'sum(pool{ix[1:]}, pool[{ix[0]}])', guarded(lambda: sum(cs[1:], cs[0])), allids(ix))
+        elif k == 'reduce':
+            derived(f'reduce(add, pool{ix})', guarded(lambda: functools.reduce(operator.add, cs)), allids(ix))
+        elif k == 'copy':
+            derived(f'pool[{op[1]}].copy()', guarded(lambda: cs[0].copy()), pool[op[1]]['ids'])
+        elif k == 'fdt':
+            iv = TimeInterval(T0 + timedelta(hours=op[2]), T0 + timedelta(hours=op[3]))
+            derived(f'pool[{op[1]}].filter_by_dt({op[2]}h..{op[3]}h)', guarded(lambda: cs[0].filter_by_dt(iv)), sub=op[1])
+        elif k == 'fprop':
+            derived(f'pool[{op[1]}].filter_by_property(n % {op[2]} == {op[3]})',
+                    guarded(lambda: cs[0].filter_by_property('n', lambda v: v % op[2] == op[3])), sub=op[1])
+        elif k == 'slice':
+            if entry == 'track':
+                derived(f'pool[{op[1]}][{op[2]}h:{op[3]}h]',
+                        guarded(lambda: cs[0][T0 + timedelta(hours=op[2]):T0 + timedelta(hours=op[3])]), sub=op[1])
+            else:
+                derived(f'FeatureCollection(pool[{op[1]}][{op[2]}:{op[3]}])', guarded(lambda: FeatureCollection(cs[0][op[2]:op[3]])), sub=op[1])
+        else:
+            raise AssertionError(op)
+    out = []
+    for i, e in enumerate(pool):
+        col, cl = e['col'], []
+        if col is None:
+            if e['err'] is not None:           # the derivation itself raised: judged against the shapes it should hold
+                ms = None if e['ids'] is None else [verts[x] for x in e['ids']]
+                out.append((e['how'], ms, ('Err', e['err']), [('raises', f'{e["how"]} raised {e["err"]}')]))
+            else:
+                out.append((e['how'], None, None, []))
+            continue
+        got = [id(s) for s in col.geoshapes]
+        if any(x not in verts for x in got):
+            cl.append(('members', f'{e["how"]} holds a shape that none of its operands held'))
+            out.append((e['how'], None, None, cl))
+            continue
+        if e['ids'] is not None and sorted(got) != e['ids']:
+            cl.append(('members', f'{e["how"]} holds {len(got)} shapes, not exactly the {len(e["ids"])} shapes of its operands'))
+        if e['sub'] is not None and pool[e['sub']]['col'] is not None:
+            src = [id(s) for s in pool[e['sub']]['col'].geoshapes]
+            if any(got.count(x) > src.count(x) for x in set(got)):
+                cl.append(('members', f'{e["how"]} holds a shape its source does not'))
+        if not isinstance(col, cls_):
+            cl.append(('members', f'{e["how"]} is a {type(col).__name__}'))
+        out.append((e['how'], [verts[x] for x in got], guarded(lambda: [of_coord(c) for c in col.convex_hull.outline]), cl))
+    return out
 
 
 def impl_entry(kind, pts, rng):
@@ -702,6 +936,58 @@ def main():
             add_collection(entry, 'fixed', [(kind, [(2, 6)], 3, 1), (kind, [(2, 6)], 2, 0)])
             add_collection(entry, 'fixed', [('box', [(0, 2), (4, 0)], 2, 0), ('line', [(1, 1), (2, 3)], 2, 2), (kind, [(2, 6)], 2, 1)])
 
+    # -- call histories on collections: observations read on the operands BEFORE `+` / `+=` / sum() / reduce / copy / filters /
+    #    slices; every collection of the pool is then asked for its hull (see gen_history / run_history above)
+    def add_history(form, hist, frame=IDENT):
+        set_frame(frame)
+        allpts = [tuple(q) for specs in hist['operands'] for s_ in specs for q in s_[1]]
+        if frame != IDENT and not frame_exact(allpts, rng):
+            skipped[0] += 1
+            return
+        try:
+            res = run_history(hist)
+            if frame != IDENT and not frame_exact([q for _, ms, _, _ in res if ms for x in ms for q in x] or allpts, rng):
+                raise Inexact('member vertex not representable')
+        except Inexact:
+            skipped[0] += 1
+            return
+        ck.count('history:' + form)
+        ck.count('history-entry:' + hist['entry'])
+        for op in hist['program']:
+            ck.count('history-op:' + op[0] + (':convex_hull' if op[0] == 'read' and op[2] == 'convex_hull' else ''))
+        for ti, (how, ms, r, cl) in enumerate(res):
+            if r is None and not cl:
+                continue
+            ms = ms or []
+            flat = [q for x in ms for q in x]
+            m = {'k': 'entry', 'entry': hist['entry'], 'class': 'history:' + form, 'pts': flat, 'members': ms, 'out': r, 'frame': frame_json(frame),
+                 'history': hist, 'target': ti, 'obtained_as': how}
+            if r is None:                      # the derived collection does not hold what it should: nothing to hand to the model
+                r = ('Err', 'OtherError')
+                m['out'] = r
+            cases.append(f'KEntry {listlit([ptslit(x) for x in ms])} {reslit(r, ptslit)}')
+            m['clauses'] = list(cl) + (oracle_here(flat, r[1]) if r[0] == 'Ok' else
+                                       [] if cl or (not flat and r[1] == 'IndexError') else
+                                       [('raises', f'convex_hull of {how} raised {r[1]} on members {ms}')])
+            meta.append(m)
+            ck.count('history-collection:' + ('operand' if how.startswith('operand') else 'derived'))
+            if len(set(flat)) >= 3 and not how.startswith('operand'):
+                seen_nontrivial.add((tuple(flat), 'history', how, frame[2]))
+
+    for it in range(2400 if thorough else 400):
+        entry = ('track', 'fc')[it % 2]
+        form, hist = gen_history(rng, entry)
+        add_history(form, hist, MEMBER_FRAMES[(it // 2) % len(MEMBER_FRAMES)])
+    # fixed: a square and a far ping, two single pings, a ping and a segment - hulls read on both / one / none, both orders, `+` and `+=`
+    sq = [('pt', [[0, 0]], 2, 0), ('pt', [[2, 0]], 2, 2), ('pt', [[2, 2]], 2, 4), ('pt', [[0, 2]], 2, 6)]
+    for entry in ('track', 'fc'):
+        for b_ in ([('pt', [[5, 1]], 2, 3)], [('mptrep', [[5, 1]], 3, 3), ('pt', [[5, 1]], 2, 9)]):
+            for a_ in (sq, [('pt', [[-1, 4]], 2, 1)], [('pt', [[-1, 4]], 2, 1), ('pt', [[3, 4]], 2, 7)]):
+                for rd in ([0, 1], [1, 0], [0], [1], []):
+                    for der in (['add', 0, 1], ['add', 1, 0], ['iadd', 0, 1]):
+                        add_history('fixed', {'entry': entry, 'operands': [a_, b_],
+                                              'program': [['read', i, 'convex_hull'] for i in rd] + [der, ['add', 2 if der[0] == 'add' else 0, 1]]})
+
     # -- seeded structured generators, each configuration in one frame of the cycle
     n_gen = 6000 if thorough else 1100
     kinds = itertools.cycle(ENTRY_KINDS)
@@ -890,6 +1176,11 @@ def main():
                    'include multi-shapes with ONE distinct position (one point, a repeated point, linestrings with coinciding vertices), two or '
                    'collinear positions, single points and ordinary members - alone (the whole collection), stacked, only such members, next to a '
                    'base shape as a hull vertex nobody else supplies / on its edge / inside, and mixed - in 6 frames; '
+                   'call histories on FeatureCollections / Tracks (2-5 operands biased to one ping, pings repeating one position, one-position '
+                   'multi-shapes, segments; cached and uncached observations read on the operands before `+` in both orders, `+=`, sum()/reduce '
+                   'chains of 2-4 sums with or without reading the intermediates, copy, time / property filters, slices): EVERY collection of the '
+                   'pool is compared with hull_of_members of its own members and with the property on the exact coordinates, a sum must hold '
+                   'exactly its operands\' shapes; '
                    'exactness of the float computation checked per case with Fractions (skipped_inexact counts the cases dropped); '
                    'non-trivial = at least 3 distinct points and (a repeated input point, or two points sharing a longitude, or an input point on '
                    'a hull edge); distinct (input tuple, scale) counted',
@@ -941,7 +1232,17 @@ def replay(path):
     if m.get('k') == 'entry':
         set_frame(m.get('frame') or IDENT)
         ms = [[tuple(p) for p in x] for x in m['members']]
-        if m.get('member_specs'):       # the members as they were built (kind, points, repetitions, hour)
+        if m.get('history'):            # a call history: re-run it, show every collection of the pool, judge the target
+            print('history:', json.dumps(m['history']))
+            res = run_history(m['history'])
+            for ti, (how, hms, hr, hcl) in enumerate(res):
+                hflat = [p for x in (hms or []) for p in x]
+                print(f'  pool[{ti}] = {how}: members {hms} hull {hr} clauses',
+                      list(hcl) + (oracle_here(hflat, hr[1]) if hr and hr[0] == 'Ok' else []))
+            how, hms, eo, _ = res[m['target']]
+            ms = hms or ms
+            eo = eo or ('Err', 'OtherError')
+        elif m.get('member_specs'):       # the members as they were built (kind, points, repetitions, hour)
             specs = [(k_, [tuple(p) for p in pts_], rep_, hr_) for k_, pts_, rep_, hr_ in m['member_specs']]
             print('members (kind, grid points, repetitions, hour):', specs)
             eo = guarded(lambda: [of_coord(c) for c in build_collection(m['entry'], specs)[0]().outline])
